@@ -85,6 +85,9 @@ partial def loopSkeleton : Stmt → List (String × List String)
   | .for_ p e b =>
     let v := match p with
       | .tuple (.var x :: _) => x
+      | .tuple (.tuple vs :: _) => String.join (vs.map fun
+          | .var x => x
+          | _ => "?")
       | .var x => x
       | _ => "?"
     (v, e.reads.eraseDups) :: loopSkeleton b
